@@ -247,13 +247,16 @@ def run(ctx, eng):
                 elif s == 'not self.config.client_side':
                     cs = False
         if p.exit == 'return':
-            vals[(hw, cs)] = cm.show0(p.value)
+            # every returning path is judged: one value per case
+            vals.setdefault((hw, None if hw else cs), set()).add(
+                cm.show0(p.value))
         elif cm.explicit_raise(p) is not None and \
                 p.exc['names'] == {'NoAvailableStreamIDError'}:
             last = [e for e in p.events if e.kind == 'assume'][-1]
             exh.add(cm.show0(last.cond))
-    ok = vals.get((False, True)) == '1' and vals.get((False, False)) == '2' \
-        and vals.get((True, None)) == 'self.highest_outbound_stream_id + 2'
+    ok = vals == {(False, True): {'1'}, (False, False): {'2'},
+                  (True, None): {'self.highest_outbound_stream_id + 2'}}
+    vals = {k: sorted(v) for k, v in vals.items()}
     ctx.ob('ARITH.next-id', fi.qual, 'smallest unused id of own parity', ok,
            '1/2 by role when nothing was opened, else watermark + 2 '
            '(found %s)' % vals, node=fi.node)
